@@ -309,7 +309,7 @@ PROPS["C02"] = dict(
           "(only the first corrupts). Three phases per case against one store: corrupted sync, honest retry, resync with another position "
           "corrupted. After EVERY sync every key/value of the destination store is re-hashed with the CID's own function and length, hooks must "
           "name only blocks stored intact, the corrupted sync must fail iff the corrupted response was actually consumed, and the store after "
-          "the honest retry must equal the publisher's. Corruption kind cut-mid-body announces the full length and cuts the connection after k bytes (a read error mid-body); the next answer for that CID then carries only the remainder. Sub-check failing-store: the LOCAL store fails one chosen block write after k bytes and still commits what it has; the sync must fail, nothing that does not hash to its CID may be stored or reported, and the retry with a working store must complete. A third of the corrupt-sync cases mark the subscriber's own link system TrustedStorage; corruption kinds append-whitespace / prepend-whitespace add what a text-oriented host may add around a JSON document. Sub-check branching-traversal: the subscriber follows every link of an advertisement (StrictAdsSelector(false)), advertisements carry entry chunks, one reachable block (advertisement or chunk) is corrupted and the links visited after it answer correctly; the sync must fail, set no latest-synced, neither store nor report the bad block, and the honest retry must store every reachable block. After every phase the store must hold nothing but blocks of the chain that was asked for (refused bytes are not kept under another name either). Sub-check digest-of-another-function: a head whose predecessor link names hash function A while its digest is the digest of the served bytes under function B (the function of the head itself): the sync must fail and store nothing under that CID. Sub-check private-hash-function: the application link system knows a private-use function through its own HasherChooser; a corrupted body for a CID naming it is never stored or reported, whether or not the link can be followed. distinct_nontrivial = distinct (hash prefix, corruption, position, mode) tuples."),
+          "the honest retry must equal the publisher's. Corruption kind cut-mid-body announces the full length and cuts the connection after k bytes (a read error mid-body); the next answer for that CID then carries only the remainder. Corruption kind redirect-to-other-block answers the request with a 302 to another genuine block of the same chain. Sub-check failing-store: the LOCAL store fails one chosen block write after k bytes and still commits what it has; the sync must fail, nothing that does not hash to its CID may be stored or reported, and the retry with a working store must complete. A third of the corrupt-sync cases mark the subscriber's own link system TrustedStorage; corruption kinds append-whitespace / prepend-whitespace add what a text-oriented host may add around a JSON document. Sub-check branching-traversal: the subscriber follows every link of an advertisement (StrictAdsSelector(false)), advertisements carry entry chunks, one reachable block (advertisement or chunk) is corrupted and the links visited after it answer correctly; the sync must fail, set no latest-synced, neither store nor report the bad block, and the honest retry must store every reachable block. After every phase the store must hold nothing but blocks of the chain that was asked for (refused bytes are not kept under another name either). Sub-check digest-of-another-function: a head whose predecessor link names hash function A while its digest is the digest of the served bytes under function B (the function of the head itself): the sync must fail and store nothing under that CID. Sub-check private-hash-function: the application link system knows a private-use function through its own HasherChooser; a corrupted body for a CID naming it is never stored or reported, whether or not the link can be followed. distinct_nontrivial = distinct (hash prefix, corruption, position, mode) tuples."),
     floors={"quick": {"blocks_served_under_a_cid_naming_another_function": 25, "mut_append-whitespace": 40, "corrupted_response_among_sibling_links": 150, "subscriber_link_system_marked_trusted": 200, "remainder_only_answers": 60, "store_write_faults_hit": 150, "corrupted_response_consumed": 1500, "audited_store_entries": 5000, "two_address_cases": 200, "big_block_cases": 40, "hash_identity": 100, "hash_sha2-256/16": 100}},
     level_text=("Fault enumeration over (hash prefix x corruption kind x request position x mode), sampled with a seeded PRNG: the real "
                 "subscriber syncs from a real publisher whose responses are corrupted in flight; the destination store is audited entry by entry."),
